@@ -7,7 +7,7 @@ def nontrivial(case):
 
 SPEC = skel_common.spec(
     "C07", "C07.v",
-    "cases = (i) every iterate snapshot (s, z, tau, kappa as exact dyadics) of every traced solve whose internal cone list equals the user's, decided in Coq by c_interior_all for every cone kind: exactly (strict) for zero / nonnegative / second-order blocks; for exponential, power (short dyadic exponents; half of the generated ones), generalised power and PSD blocks by the exact sign conditions plus the certified membership tests of Term/Check.v at the recorded point or at the point moved by the relative allowance 2^-40; (ii) every call of backtrack_step_to_barrier (up to 30 per solve): the recorded barrier answers must be well formed (all false before the last, at most 50 trials) and the returned step must be bit-for-bit the model's step^k * alpha_init (c_barrier_bt); (iii) direct records: budget sweep on up to 45 long runs - for every k up to min(iterations, 10) the run limited to max_iter = k is compared bitwise (x, s, z, tau, kappa of the internal iterate) with the head of the long run that shows iteration k. distinct = distinct (problem, snapshot).",
+    "cases = (i) every iterate snapshot (s, z, tau, kappa as exact dyadics) of every traced solve whose internal cone list equals the user's, decided in Coq by c_interior_all for every cone kind: exactly (strict) for zero / nonnegative / second-order blocks; for exponential, power (short dyadic exponents; half of the generated ones), generalised power and PSD blocks by the exact sign conditions plus the certified membership tests of Term/Check.v at the recorded point or at the point moved by the relative allowance 2^-40; (ii) every call of backtrack_step_to_barrier (up to 30 per solve): the recorded barrier answers must be well formed (all false before the last, at most 50 trials) and the returned step must equal the model's step^k * alpha_init to a relative 2^-40 (c_barrier_bt); (iii) direct records: budget sweep on up to 45 long runs - for every k up to min(iterations, 10) the run limited to max_iter = k is compared bitwise (x, s, z, tau, kappa of the internal iterate) with the head of the long run that shows iteration k. distinct = distinct (problem, snapshot).",
     "Theorem C07_prefix_independent (loop model, all kernel answers): with budgets k <= K the two runs coincide until the first head with iter = k at which no verdict applies, where the k-run stops in exactly that state with MaxIterations; the run checks the consequence bitwise on the implementation. C07_interior_* state what the exact dyadic snapshot test certifies (strict positivity; s0 > 0 and s0^2 > |s1|^2); C07_interior_all_sound does so for every cone kind (cone_intP: sign conditions and certified membership over the reals, exponential cone through the enclosure of Term/LemmasExp.v, PSD through exact elimination, Term/LemmasPsd.v). C07_barrier_backtrack_result / _bounds: the barrier backtracking returns alpha_init * step^k, k <= 50, positive and not longer than alpha_init. Props/C07_cones.v (reals, every dimension): a step of calc_step_length's size keeps a strictly interior point of the nonnegative / second-order cone strictly interior (C07_{nn,soc}_step_keeps_interior, C07_{nn,soc}_calc_step_keeps_interior), the inductive step of the interior invariant for those cones.",
     nontrivial,
     {"extra_props_files": ["C07_cones.v"], "targets": ["theories/Props/C07.vo", "theories/Props/C07_cones.vo"] + skel_common.TARGETS,
